@@ -35,6 +35,7 @@ Req(e)  == RangeP(e.requested)
 Dis(e)  == RangeP(e.disabled)
 Fg(e)   == RangeP(e.foreground)
 Loaded(e) == ~e.loadErr /\ ~e.runnerErr
+Ran(e) == Loaded(e) /\ ~e.runSkipped /\ ~e.runStuck
 
 Selected(e) == IF Req(e) = {} THEN Nodes(e)
                ELSE IF e.noDeps THEN Req(e) ELSE Closure(e, Req(e))
@@ -55,21 +56,25 @@ C07_OrderIsTopologicalAndExact(e) ==
              <<BaseOf(e, a), BaseOf(e, b)>> \in DefEdges(e) => Pos(e.order, b) < Pos(e.order, a))
 
 C07_SelectionIsClosure(e) ==
-  Loaded(e) =>
+  Ran(e) =>
     /\ RangeP(e.launched) = ReplicasOf(e, ExpectedStarted(e))
     /\ \A r \in ReplicasOf(e, Nodes(e) \ Selected(e)) : r \in RangeP(e.disabledAfter)
     /\ RangeP(e.launched) \cap RangeP(e.disabledAfter) = {}
 
+\* a loaded plan can be run to completion
+C07_RunCompletes(e) == Loaded(e) => ~e.runStuck
+
 C07_DeferredNeverLaunched(e) ==
-  Loaded(e) =>
+  Ran(e) =>
     /\ ReplicasOf(e, Fg(e)) \cap RangeP(e.launched) = {}
     /\ (Req(e) = {} => ReplicasOf(e, Dis(e)) \cap RangeP(e.launched) = {})
 
 PlanViolated(e) ==
   { n \in {"C07_RejectIffCycleOrDangling", "C07_OrderIsTopologicalAndExact", "C07_SelectionIsClosure",
-           "C07_DeferredNeverLaunched"} :
+           "C07_DeferredNeverLaunched", "C07_RunCompletes"} :
       ~(CASE n = "C07_RejectIffCycleOrDangling" -> C07_RejectIffCycleOrDangling(e)
           [] n = "C07_OrderIsTopologicalAndExact" -> C07_OrderIsTopologicalAndExact(e)
           [] n = "C07_SelectionIsClosure" -> C07_SelectionIsClosure(e)
-          [] n = "C07_DeferredNeverLaunched" -> C07_DeferredNeverLaunched(e)) }
+          [] n = "C07_DeferredNeverLaunched" -> C07_DeferredNeverLaunched(e)
+          [] n = "C07_RunCompletes" -> C07_RunCompletes(e)) }
 =============================================================================
